@@ -55,7 +55,7 @@ fn req_json(r: &Req) -> Value {
 }
 
 fn run_req(ctx: &Ctx, r: &Req, tag: &str) -> (cli::RunOut, String) {
-    let dir = ctx.scratch.join(format!("c18-{}", tag));
+    let dir = ctx.fresh_dir(&format!("c18-{}", tag));
     let _ = std::fs::create_dir_all(&dir);
     let mut args: Vec<String> = Vec::new();
     if let Some(v) = r.v {
@@ -219,7 +219,7 @@ fn gen_job(ctx: &Ctx, job: usize, jobs: usize, reps: usize) -> Stats {
 
 fn convert_case(ctx: &Ctx, st: &mut Stats, edges: &[(String, String)], undirected: bool, dot: bool, colors: Option<usize>, tag: &str) {
     st.evals += 1;
-    let dir = ctx.scratch.join(format!("c18c-{}", tag));
+    let dir = ctx.fresh_dir(&format!("c18c-{}", tag));
     let _ = std::fs::create_dir_all(&dir);
     let f = dir.join("in.csv");
     let csv: String = edges.iter().map(|(a, b)| format!("{},{}\n", a, b)).collect();
@@ -385,7 +385,7 @@ fn convert_job(ctx: &Ctx, job: usize, jobs: usize, thorough: bool) -> Stats {
 
 pub fn run(ctx: &Ctx) -> (Stats, Spec) {
     let thorough = ctx.tier == crate::report::Tier::Thorough;
-    let reps = ctx.tier.pick(3usize, 60usize);
+    let reps = ctx.tier.pick(10usize, 60usize);
     let jobs = 32;
     let parts = util::par_jobs(jobs, |j| {
         let mut s = gen_job(ctx, j, jobs, reps);
@@ -395,7 +395,7 @@ pub fn run(ctx: &Ctx) -> (Stats, Spec) {
     let mut st = crate::report::merge_all(parts);
     st.exhaustive.push("every request (V <= 6, E <= max+2, -u, --dot, stdout / -o) and --complete for V <= 6; --convert on all digraphs with <= 3 vertices; --colors k (k = 0..3) on all loop-free graphs with 2..4 vertices".into());
     let spec = Spec {
-        rule: "all (V in 0..6, E in 0..max+2, -u, --dot, stdout or -o) requests, feasible ones repeated 3 [quick] / 60 [thorough] times (every run is a fresh random sample; the number of distinct outputs seen is reported), --complete with and without an edge count, missing arguments; --convert on every digraph with <= 3 vertices (shuffled rows; exact duplicates and self-loops without -u; reversed pairs under -u), --colors 0..3 on every loop-free graph with 2..4 (thorough: sampled 5) vertices. distinct = (request, output); non-trivial = 0 < E < max resp. non-empty input.".into(),
+        rule: "all (V in 0..6, E in 0..max+2, -u, --dot, stdout or -o) requests, feasible ones repeated 10 [quick] / 60 [thorough] times (every run is a fresh random sample; the number of distinct outputs seen is reported), --complete with and without an edge count, missing arguments; --convert on every digraph with <= 3 vertices (shuffled rows; exact duplicates and self-loops without -u; reversed pairs under -u), --colors 0..3 on every loop-free graph with 2..4 (thorough: sampled 5) vertices. distinct = (request, output); non-trivial = 0 < E < max resp. non-empty input.".into(),
         assumptions: vec![
             "uniformity of the random sample is not claimed by the property and not tested".into(),
             "self-loops and exact duplicates are not given to --convert -u / --colors (their treatment is a convention the statement does not fix)".into(),
